@@ -76,6 +76,7 @@ const Prelude = `(set-option :produce-models true)
 (assert (forall ((r (Array Int Int)) (o Int) (n Int)) (! (and (= (blen (snapb r o n)) n) (= (select (barr (snapb r o n)) n) 0)) :pattern ((snapb r o n)))))
 (assert (forall ((r (Array Int Int)) (o Int) (n Int) (i Int)) (! (= (select (barr (snapb r o n)) i) (ite (and (<= 0 i) (< i n)) (select r (+ o i)) 0)) :pattern ((select (barr (snapb r o n)) i)))))
 (assert (forall ((r1 (Array Int Int)) (o1 Int) (n1 Int) (r2 (Array Int Int)) (o2 Int) (n2 Int)) (! (=> (= (snapb r1 o1 n1) (snapb r2 o2 n2)) (= (key48 r1 o1 n1) (key48 r2 o2 n2))) :pattern ((key48 r1 o1 n1) (key48 r2 o2 n2)))))
+(assert (forall ((r (Array Int Int)) (o Int) (n Int)) (! (= (key48 r o n) (key48 (barr (snapb r o n)) 0 n)) :pattern ((key48 r o n) (snapb r o n)))))
 `
 
 func And(xs ...string) string {
